@@ -1862,7 +1862,7 @@ class Interp:
             except TypeError as ex:
                 if 'positional argument' in str(ex) or 'keyword argument' in str(ex) or 'required' in str(ex):
                     self.throw('TypeError', str(ex))
-                if any(sym.is_sym(a) or type(a).__name__ in ('SFloat', 'BA', 'SStr', 'PStr') for a in list(args) + list(kwargs.values())):
+                if any(sym.is_sym(a) or type(a).__name__ in ('SFloat', 'BA', 'SStr', 'PStr', 'Obj', 'BBytes', 'SymBytes') for a in list(args) + list(kwargs.values())):
                     # a host function this engine has no symbolic model for: the path is undecided, not an engine fault
                     raise Unsupported(f'{f.name} applied to a symbolic value ({ex})')
                 raise
